@@ -133,8 +133,8 @@ def main(argv=None):
     ap.add_argument('--replay', default=None)
     ap.add_argument('--list', action='store_true')
     ap.add_argument('--first', action='store_true', help='stop scheduling new obligations after the first reproduced counterexample (mutation trials; evidence not written)')
-    ap.add_argument('--scale', type=float, default=float(os.environ.get('VSYM_SCALE', '1.0')),
-                    help='multiply all budgets (slow machines)')
+    ap.add_argument('--scale', type=float, default=float(os.environ.get('VSYM_SCALE', '2.5')),
+                    help='multiply all CPU budgets of the harnesses (default 2.5: head-room for loaded machines; a budget is only an upper bound)')
     a = ap.parse_args(argv)
     prop = a.property
     os.chdir(VERIF)
